@@ -517,6 +517,8 @@ func checkCase(t *testing.T, c Case) (v harness.Verdict) {
 		switch tr.Kind {
 		case "value":
 			ck.value(tr, i)
+		case "present":
+			ck.present(tr)
 		case "bytes":
 			if strings.HasPrefix(tr.Note, "mut") || tr.Note == "raw" {
 				ck.mutated = true
@@ -551,7 +553,7 @@ func checkCase(t *testing.T, c Case) (v harness.Verdict) {
 // Values: Marshal against the reference encoder, round trip, refusal of invalid values.
 var Values = harness.Define(harness.Opts{
 	Name:  "values",
-	Rule:  "type descriptors (depth<=3, <=8(+variant) fields per struct: uint8/16/24/32/64, tls.Enum and aliases with size:1..8 or maxval at the width edges, [0..40]byte, []byte / []T / []struct with minlen/maxlen at the width edges, nested structs, 0-2 selector groups with 1-3 pointer arms anywhere after the selector, top-level non-struct types with params) realised by reflect.StructOf, 3-6 values each (boundary-biased; 40% made invalid in exactly one way: length below min / above max, enum wider than its size, uint24 overflow, unchosen arm present, chosen arm absent, selector without arm). Oracle: reference encoder/decoder over descriptors (RFC 5246 s4). Non-trivial: the type has a multi-byte field at a non-zero offset, a variant or a tag at a width boundary, or the value was made invalid",
+	Rule:  "type descriptors (depth<=3, <=8(+variant) fields per struct: uint8/16/24/32/64, tls.Enum and aliases with size:1..8 or maxval at the width edges, [0..40]byte, []byte / []T / []struct with minlen/maxlen at the width edges, nested structs, 0-2 selector groups with 1-3 pointer arms anywhere after the selector, top-level non-struct types with params) realised by reflect.StructOf, 3-6 values each (boundary-biased; 40% made invalid in exactly one way: length below min / above max, enum wider than its size, uint24 overflow, unchosen arm present, chosen arm absent, selector without arm), plus 1-3 top-level presentations per case (pointer, typed nil pointer, **T, pointer to nil pointer, pointer to interface, nil interface, hostile params strings, unsupported or wrongly annotated Go types; Unmarshal into non-pointer / nil pointer / nil interface / **T) judged only as error-never-panic. Oracle: reference encoder/decoder over descriptors (RFC 5246 s4). Non-trivial: the type has a multi-byte field at a non-zero offset, a variant or a tag at a width boundary, or the value was made invalid",
 	Quick: 8000, Thorough: 20000, MaxSample: 900,
 }, genValues, checkCase)
 
